@@ -99,13 +99,15 @@ def observe(results):
 EXEC_CHECK = dict(consistency=False, mse_of_estimators=False, mse_of_empi_dists=False, physicality_violation=True)
 
 
-def run_flow(kind, n_rep, pm, prefix, real=False, keep=None):
+def run_flow(kind, n_rep, pm, prefix, real=False, keep=None, holder=None):
     from quara.settings import Settings
     from quara.simulation import standard_qtomography_simulation as sim
     from quara.simulation import standard_qtomography_simulation_flow as flow
     import joblib as real_joblib
     ch = vsched.Chooser(prefix)
     vj = vsched.VirtualJoblib(ch, settings_cls=Settings)
+    if holder is not None:
+        holder["ch"], holder["vj"] = ch, vj
     d = tempfile.mkdtemp(prefix="quara-c15-")
     g0 = np.random.get_state()
     np.random.seed(20260927)
@@ -196,8 +198,20 @@ def ex_flow(p, seed):
         return out
     nexec = [0]
 
+    class _Raised(Exception):
+        pass
+
     def run(prefix):
-        ch, obs, vj = run_flow(kind, n_rep, pm, prefix)
+        holder = {}
+        try:
+            ch, obs, vj = run_flow(kind, n_rep, pm, prefix, holder=holder)
+        except vsched.ScheduleDivergence:
+            raise
+        except Exception as e:  # the library flow raised under this schedule (it did not serially)
+            ch, vj = holder.get("ch"), holder.get("vj")
+            if ch is None:
+                raise
+            obs = ["X" + A.fmt_exc(e)]
         return ch, (obs, vj)
 
     def on(prefix, ch, obs_vj):
@@ -209,7 +223,10 @@ def ex_flow(p, seed):
         out.count("parallel_calls_seen", sum(1 for e in vj.log if e[0] == "parallel"))
         if any(c != 0 for (_, _, c) in ch.points):
             out.count("schedules_with_deviation")
-        if obs != base:
+        if obs and obs[0].startswith("X"):
+            dev = [(lab, c) for (lab, n, c) in ch.points if c != 0]
+            out.fail("flow:raises-under-parallel-schedule", "parallel_mode %s, deviations %r: %s" % (cfgname, dev, obs[0][1:]))
+        elif obs != base:
             fields = diff_fields(base, obs)
             dev = [(lab, c) for (lab, n, c) in ch.points if c != 0]
             kinds_ = sorted(set(lab.split("@")[0] for lab, _ in dev)) or ["default-parallel"]
